@@ -437,6 +437,37 @@ func c19VerifyStorm(run *mon.Run) {
 		}(g)
 	}
 	wg.Wait()
+	// second phase: every goroutine verifies the SAME signature slice under the SAME key object (and
+	// uses it as both SPoCK proofs): an argument that the C layer touches in place, even if it restores
+	// it, gives wrong verdicts or ends up modified
+	shared := append([]byte{}, keys[0].sigs[0]...)
+	sharedCopy := append([]byte{}, shared...)
+	var sharedWrong atomic.Int64
+	for g := 0; g < G; g++ {
+		wg.Add(1)
+		go func(g int) {
+			defer wg.Done()
+			defer run.Protect("c19 verify storm")
+			for i := 0; i < iters/2; i++ {
+				var ok bool
+				var err error
+				if (g+i)%3 == 0 {
+					ok, err = crypto.SPOCKVerify(keys[0].pk, shared, keys[0].pk, shared)
+				} else {
+					ok, err = keys[0].pk.Verify(shared, msgs[0], xof)
+				}
+				if err != nil || !ok {
+					sharedWrong.Add(1)
+				}
+			}
+			run.Eval(iters / 2)
+			run.Count("verify-storm.shared-signature-calls", iters/2)
+		}(g)
+	}
+	wg.Wait()
+	if sharedWrong.Load() > 0 || !bytes.Equal(shared, sharedCopy) {
+		run.Violate("C19:result-differs:shared-signature-storm", fmt.Sprintf("16 goroutines verifying one shared signature slice: %d calls returned false or an error; signature bytes unchanged afterwards: %v", sharedWrong.Load(), bytes.Equal(shared, sharedCopy)), map[string]any{"iterations_per_goroutine": iters / 2})
+	}
 	if wrongReject.Load() > 0 || wrongAccept.Load() > 0 || errs.Load() > 0 {
 		run.Violate("C19:result-differs:verify-storm", fmt.Sprintf("16 goroutines verifying over two alternating messages: %d valid signatures rejected, %d signatures of the other message accepted, %d errors (each call returns the right verdict when run alone)", wrongReject.Load(), wrongAccept.Load(), errs.Load()), map[string]any{"iterations_per_goroutine": iters})
 	}
